@@ -260,9 +260,21 @@ func ruleR02a(h *H) {
 			bad := ""
 			for _, s := range h.callersOf(ir.Callee{Pkg: "server", Recv: "LeaderController", Name: name}) {
 				o := ir.Outermost(s.Fn)
-				recvOK := o.Signature.Recv() != nil && (ir.TypeIs(o.Signature.Recv().Type(), "server", "session") || ir.TypeIs(o.Signature.Recv().Type(), "server", "sessionManager"))
-				if !recvOK {
-					bad = fmt.Sprintf("%s is called from %s (%s), outside the session code", name, ir.FuncName(o), h.pos(s.Call))
+				// the unchecked list may serve the controller's own session bookkeeping, but no
+				// request handler: not a gRPC service implementation, not a data-path method
+				isRPC := false
+				if o.Signature.Recv() != nil {
+					for _, svc := range []string{"OxiaClientServer", "OxiaLogReplicationServer", "OxiaCoordinationServer"} {
+						if h.P.FuncMatches(o, ir.Callee{Pkg: "proto", Recv: svc, Name: o.Name()}) {
+							isRPC = true
+						}
+					}
+					if ir.TypeIs(o.Signature.Recv().Type(), "server", tn) {
+						isRPC = true
+					}
+				}
+				if isRPC {
+					bad = fmt.Sprintf("%s is called from %s (%s), a request handler", name, ir.FuncName(o), h.pos(s.Call))
 				}
 			}
 			h.Verdict(bad == "", rule, construct, h.P.Pos(m.Pos()), "exempt: "+why, bad)
